@@ -104,7 +104,7 @@ func fxAtom(r *hx.Rng, places int) string {
 		ip := "9223372036854775807"[:19-places]
 		return hx.Pick(r, []string{ip, ip + ".5", ip[:len(ip)-1], "1" + strings.Repeat("0", 18-places), strings.Repeat("9", 18-places), strings.Repeat("9", 19-places)})
 	case 7, 8:
-		return hx.Pick(r, []string{"$x", "$y", "$z", "$h", "$n", "$neg", "$foo.bar", "$a_1", "$tiny", "$max4", "$big", "$sp", "$comma", "$str", "$bool", "$x", "$y", "$n", "$h", "$a1e", "$r2e", "$x.1e", "$a#1e", "$rate", "$a1e", "$ch", "$ch2", "$A1e", "$x.1e",
+		return hx.Pick(r, []string{"$x", "$y", "$z", "$h", "$n", "$neg", "$foo.bar", "$a_1", "$tiny", "$max4", "$big", "$sp", "$comma", "$str", "$bool", "$x", "$y", "$n", "$h", "$a1e", "$r2e", "$x.1e", "$a#1e", "$rate", "$a1e", "$ch", "$ch2", "$A1e", "$x.1e", "$A1E",
 			"$ws", "$paren", "$expr", "$undefined"})
 	case 9: // texts: the string fall-backs of == < + and the string condition of if
 		if r.Bool() {
@@ -118,9 +118,98 @@ func fxAtom(r *hx.Rng, places int) string {
 		if !r.Chance(1, 4) {
 			return strconv.Itoa(r.Intn(50)) + "." + strconv.Itoa(r.Intn(10))
 		}
-		return hx.Pick(r, []string{"1e2", "1e-2", "2.5E1", "1e", "e", "E", "1e400", "sqrt(4)", "2 ^ 3", "log(1)", "exp(0)"})
+		return hx.Pick(r, []string{"1e2", "1e-2", "2.5E1", "1e+2", "2.5E-1", "2.5E+1", "1e", "e", "E", "1e400", "sqrt(4)", "2 ^ 3", "log(1)", "exp(0)"})
 	default:
 		return strconv.Itoa(r.Intn(21) - 10)
+	}
+}
+
+// ---- type-directed part: operand kinds are kept compatible so that deep expressions evaluate to a value ----------
+
+func fxLit(r *hx.Rng, places int) string {
+	switch r.Intn(8) {
+	case 0, 1, 2:
+		return hx.Pick(r, []string{"1", "2", "3", "5", "7", "10", "0.5", "2.5", "1.25", "100", "12", "0.1", "9.99", "1000"})
+	case 3:
+		s := strconv.Itoa(1 + r.Intn(500))
+		if n := r.Intn(places + 1); n > 0 {
+			s += "."
+			for i := 0; i < n; i++ {
+				s += strconv.Itoa(r.Intn(10))
+			}
+		}
+		return s
+	case 4:
+		return hx.Pick(r, []string{"$x", "$y", "$h", "$foo.bar", "$a_1", "$a1e", "$r2e", "$rate", "$A1E", "$ch", "$tiny", "$x.1e"})
+	case 5:
+		return hx.Pick(r, []string{"0", "$z", "$n", "$neg", "-3", "0.0"}) // zeros and negatives (as left operands and arguments)
+	case 6:
+		return pointAt(hx.Pick(r, []string{"4611686018427387903", "3037000499", "922337203685477580", "99999999", "1", "15"}), places)
+	default:
+		return strconv.Itoa(r.Intn(20))
+	}
+}
+
+// fxNumE: a number-valued expression (an error only through overflow-free arithmetic on numbers never arises; a
+// division by zero only where the divisor happens to evaluate to zero).
+func fxNumE(r *hx.Rng, d, places int) string {
+	if d <= 0 || r.Chance(1, 5) {
+		if r.Chance(1, 8) {
+			return hx.Pick(r, []string{"-", "+"}) + fxLit(r, places)
+		}
+		return fxLit(r, places)
+	}
+	sp := func() string { return hx.Pick(r, []string{"", " ", " ", "\t"}) }
+	switch r.Intn(14) {
+	case 0, 1, 2, 3:
+		return "(" + fxNumE(r, d-1, places) + sp() + hx.Pick(r, []string{"+", "-", "*", "+", "-"}) + sp() + fxNumE(r, d-1, places) + ")"
+	case 4, 5: // division / modulo by something that is not a literal zero
+		div := hx.Pick(r, []string{"2", "3", "7", "0.5", "10", "$x", "$y", "$h", "1.25", "(1 + " + fxLit(r, places) + ")"})
+		return "(" + fxNumE(r, d-1, places) + sp() + hx.Pick(r, []string{"/", "%"}) + sp() + div + ")"
+	case 6:
+		return hx.Pick(r, []string{"abs", "ceil", "floor", "round", "floor", "round"}) + "(" + sp() + fxNumE(r, d-1, places) + sp() + ")"
+	case 7:
+		n := r.Range(1, 4)
+		parts := make([]string, n)
+		for i := range parts {
+			parts[i] = fxNumE(r, d-1, places)
+		}
+		return hx.Pick(r, []string{"max", "min"}) + "(" + strings.Join(parts, ", ") + ")"
+	case 8:
+		return "if(" + fxBoolE(r, d-1, places) + ", " + fxNumE(r, d-1, places) + ", " + fxNumE(r, d-1, places) + ")"
+	case 9:
+		return "-(" + fxNumE(r, d-1, places) + ")"
+	case 10: // a comparison result used as a number
+		return "(" + fxBoolE(r, d-1, places) + sp() + hx.Pick(r, []string{"+", "*", "-"}) + sp() + fxNumE(r, d-1, places) + ")"
+	case 11: // chains without parentheses: precedence and left associativity decide
+		n := r.Range(2, 5)
+		s := fxNumE(r, d-2, places)
+		for i := 0; i < n; i++ {
+			s += sp() + hx.Pick(r, []string{"+", "-", "*", "-", "+"}) + sp() + fxNumE(r, d-2, places)
+		}
+		return s
+	case 12:
+		return fxNumE(r, d-1, places) + sp() + hx.Pick(r, []string{"-", "+"}) + sp() + hx.Pick(r, []string{"-", "+"}) + fxLit(r, places)
+	default:
+		return "(" + fxNumE(r, d-1, places) + ")"
+	}
+}
+
+// fxBoolE: a comparison / logical expression over numbers.
+func fxBoolE(r *hx.Rng, d, places int) string {
+	cmp := []string{"==", "!=", "<", "<=", ">", ">="}
+	if d <= 0 {
+		return fxLit(r, places) + " " + hx.Pick(r, cmp) + " " + fxLit(r, places)
+	}
+	switch r.Intn(6) {
+	case 0, 1, 2:
+		return "(" + fxNumE(r, d-1, places) + " " + hx.Pick(r, cmp) + " " + fxNumE(r, d-1, places) + ")"
+	case 3:
+		return "(" + fxBoolE(r, d-1, places) + " " + hx.Pick(r, []string{"&&", "||"}) + " " + fxBoolE(r, d-1, places) + ")"
+	case 4:
+		return "!(" + fxBoolE(r, d-1, places) + ")"
+	default:
+		return fxNumE(r, d-1, places) + hx.Pick(r, cmp) + fxNumE(r, d-1, places)
 	}
 }
 
@@ -191,6 +280,12 @@ func (fxArea) Gen(r *hx.Rng, n int, _ string, emit func(string)) {
 			s = strings.ReplaceAll(boolExpr(r), "1e-2", "0.01")
 		case r.Chance(1, 30):
 			s = literalExpr(r)
+		case r.Chance(3, 5): // type-directed: deep expressions that evaluate to a value
+			if r.Chance(1, 4) {
+				s = fxBoolE(r, r.Range(1, 5), places)
+			} else {
+				s = fxNumE(r, r.Range(2, 6), places)
+			}
 		default:
 			s = fxExpr(r, r.Range(1, 5), places)
 		}
